@@ -336,8 +336,8 @@ def files_mechanism(text: str, cfg: T.Mapping[str, T.Any], contracts: T.Set[str]
 DIFFERENTIAL: T.Tuple[T.Tuple[T.Callable[[str, T.Mapping[str, T.Any]], T.Any], T.Any], ...] = (
     (t_foreign, 'comment-split-at-non-lf-line-boundary'),
     (t_mlbackslash, 'multiline-string-simplified-changes-escapes'),
-    (t_files, files_mechanism),
     (t_single_comma, 'single-argument-call-relayouted-on-second-pass'),
+    (t_files, files_mechanism),
     (t_cont_after_open, 'continuation-after-open-bracket-relayouted-on-second-pass'),
     (t_trailing_cont, 'continuation-at-end-of-statement-gains-a-line-per-pass'),
 )
